@@ -56,7 +56,7 @@ Proof.
   intro H. induction ps as [|[text [p|]] r IH]; intros acc unk sec.
   - rewrite interp_go_nil. apply keeps_ret.
   - rewrite interp_go_ref. apply keeps_bind; [apply H|]. intro pv.
-    destruct (to_string big_fuel pv) as [[s0 u0] sc]. apply IH.
+    destruct (to_string (ts_need pv) pv) as [[s0 u0] sc]. apply IH.
   - rewrite interp_go_text. apply IH.
 Qed.
 
@@ -242,11 +242,11 @@ Proof. intros [H _]. rewrite bump_nerr in H. lia. Qed.
 
 (* the value an access into a chain yields when it raises no diagnostic *)
 Definition va0 (c : chain) (accs : path) : option chain :=
-  let '(w, n) := value_access big_fuel c accs in if N.eqb n 0 then Some w else None.
+  let '(w, n) := value_access (va_need c accs) c accs in if N.eqb n 0 then Some w else None.
 
-Lemma va0_spec c accs w : va0 c accs = Some w <-> value_access big_fuel c accs = (w, 0).
+Lemma va0_spec c accs w : va0 c accs = Some w <-> value_access (va_need c accs) c accs = (w, 0).
 Proof.
-  unfold va0. destruct (value_access big_fuel c accs) as [w' n]. destruct (N.eqb_spec n 0) as [->|Hn].
+  unfold va0. destruct (value_access (va_need c accs) c accs) as [w' n]. destruct (N.eqb_spec n 0) as [->|Hn].
   - split; [intros [= ->]; reflexivity|intros [= ->]; reflexivity].
   - split; [discriminate|intros [= -> ->]; contradiction].
 Qed.
@@ -333,10 +333,10 @@ Proof.
 Qed.
 
 Lemma value_access_step (c : chain) (accs : path) s :
-  let r := (let '(c', n) := value_access big_fuel c accs in add_err n ;;; ret c') s in
+  let r := (let '(c', n) := value_access (va_need c accs) c accs in add_err n ;;; ret c') s in
   clean (snd r) -> va0 c accs = Some (fst r) /\ memo (snd r) = memo s /\ clean s.
 Proof.
-  cbv zeta. unfold va0. destruct (value_access big_fuel c accs) as [c' n]. rewrite bind_eq.
+  cbv zeta. unfold va0. destruct (value_access (va_need c accs) c accs) as [c' n]. rewrite bind_eq.
   cbn [ret fst snd add_err]. intros [Hn Ho]. cbn [nerr oof] in Hn, Ho.
   assert (n = 0) by lia. subst n. repeat split; [lia|exact Ho].
 Qed.
@@ -352,12 +352,12 @@ Proof.
   - cbn [resolve]. apply eval_expr_done.
   - assert (Hdef : forall s0,
       clean (snd ((v <- eval_expr W f E rx rsec rbase rid ;;
-                   let '(c, n) := value_access big_fuel v (a :: rest) in add_err n ;;; ret c) s0)) ->
+                   let '(c, n) := value_access (va_need v (a :: rest)) v (a :: rest) in add_err n ;;; ret c) s0)) ->
       match done (memo (snd ((v <- eval_expr W f E rx rsec rbase rid ;;
-                   let '(c, n) := value_access big_fuel v (a :: rest) in add_err n ;;; ret c) s0))) rid with
+                   let '(c, n) := value_access (va_need v (a :: rest)) v (a :: rest) in add_err n ;;; ret c) s0))) rid with
       | Some v => va0 v (a :: rest) | None => None end
       = Some (fst ((v <- eval_expr W f E rx rsec rbase rid ;;
-                   let '(c, n) := value_access big_fuel v (a :: rest) in add_err n ;;; ret c) s0))).
+                   let '(c, n) := value_access (va_need v (a :: rest)) v (a :: rest) in add_err n ;;; ret c) s0))).
     { intros s0. rewrite bind_eq. cbv beta. intro Hc.
       destruct (value_access_step (fst (eval_expr W f E rx rsec rbase rid s0)) (a :: rest)
                   (snd (eval_expr W f E rx rsec rbase rid s0)) Hc) as (Hv & Hm & Hcl).
